@@ -329,7 +329,10 @@ def c_run(r, bh, theta=None, upto=260):
         n, d, fmts(flat(pts)), fmt(perp), (theta or "1:-1") if bh else "0", fmts(g), upto)
 
 
-def c_api(r, dim=2, theta="1:-1"):
+def c_api(r, dim=2, theta="1:-1", nonid=None):
+    """public-API case; `nonid` (default: every second case) hands tapkee::embed a NON-identity range: a shuffled subset
+    `ids` of a larger id space `M`, the features callback defined on ids (row k of X belongs to id ids[k]), all other ids
+    decoys; the model side sees the selected samples in range order."""
     m = r.range(18, 24)          # below ~15 points per cluster the optimiser (eta = 200) is outside its working regime
     d = r.range(2, 4)
     pts, labels = [], []
@@ -339,8 +342,21 @@ def c_api(r, dim=2, theta="1:-1"):
             labels.append(lab)
     n = len(pts)
     perp = r.choice([Fraction(4), Fraction(5)])
-    return "api N=%d D=%d X=%s perp=%s theta=%s dim=%d labels=%s" % (n, d, fmts(flat(pts)), fmt(perp), theta, dim,
+    line = "api N=%d D=%d X=%s perp=%s theta=%s dim=%d labels=%s" % (n, d, fmts(flat(pts)), fmt(perp), theta, dim,
                                                                        ",".join(map(str, labels)))
+    if nonid is None:
+        nonid = r.chance(1, 2)
+    if nonid:
+        M = n + r.range(5, 3 * n)
+        space = list(range(M))
+        for i in range(M - 1, 0, -1):            # Fisher-Yates on the id space, the first n ids are the range
+            j = r.range(0, i)
+            space[i], space[j] = space[j], space[i]
+        ids = space[:n]
+        if ids == list(range(n)):
+            ids[0], ids[1] = ids[1], ids[0]
+        line += " ids=%s M=%d" % (",".join(map(str, ids)), M)
+    return line
 
 
 # ----------------------------------------------------------------------------- running and judging
@@ -416,6 +432,9 @@ def verdict(line, io, mo):
             # reachable is decided by the public-API cases (target_dimension != 2 with theta > 0), which carry the finding.
             return ("agree", "bh-gradient-dims-oob", "")
         return ("fail", "abort:%s:%s" % (topic, sig), "%s stage aborts (%s)" % (topic, sig))
+    if topic == "api" and "foreign" in kv(io):
+        return ("fail", "tsne-api:foreign-id", "the features callback was evaluated %s time(s) on sample ids that are not "
+                "elements of the range handed to embed (position used instead of the element?): %s" % (kv(io)["foreign"], io[:120]))
     if io.startswith("throw"):
         f = kv(line)
         if "wrong_parameter_error" in io and f.get("dim") != "2" and f.get("theta") != "0":
@@ -504,6 +523,8 @@ def judge(ctx, binary, lines, label, do_shrink=True, timeout=300):
         topic = line.split(" ", 1)[0]
         ctx.count(line, True)
         ctx.stat("topic:" + topic)
+        if topic == "api":
+            ctx.stat("api-range-non-identity" if " ids=" in line else "api-range-identity")
         ctx.cov["traces_validated_against_impl"] += 1
         m = kv(mo)
         c = m.get("cmp", "")
@@ -642,7 +663,8 @@ def correspond(ctx):
         ctx.broken("harness-build", "harness c17_api.cpp", "API harness does not compile against /repo: " + (api.get("log") or "")[-800:])
     else:
         lines = [l for l in cl if l.startswith("api ")]
-        lines += [c_api(r.fork(), 2, "1:-1"), c_api(r.fork(), 2, "0"), c_api(r.fork(), 1, "0"), c_api(r.fork(), 1, "1:-1")]
+        lines += [c_api(r.fork(), 2, "1:-1", True), c_api(r.fork(), 2, "0", False), c_api(r.fork(), 1, "0", True),
+                  c_api(r.fork(), 1, "1:-1", False)]
         if not quick:
             lines += [c_api(r.fork(), 2, r.choice(["0", "1:-1", TH_01])) for _ in range(12)]
             lines += [c_api(r.fork(), r.choice([1, 3]), "1:-1") for _ in range(4)]
